@@ -47,7 +47,10 @@ CONFIGS = [
     ("events-bound-to-model-async", "async", Cfg("async", True, False, "facade"), "state", None, False, False),
 ]
 VALUES = ("s0", 0, "")
-MECHS = ("deepcopy", "pickle", "deepcopy-of-deepcopy", "pickle-of-deepcopy")
+MECHS = ("deepcopy", "pickle", "deepcopy-of-deepcopy", "pickle-of-deepcopy",
+         # the model owns its machine (model.owner = sm, the MachineMixin shape) and it is the
+         # model that is copied: the machine is reached through it
+         "deepcopy-via-model", "pickle-via-model")
 
 
 def clone_of(sm, mech):
@@ -57,6 +60,10 @@ def clone_of(sm, mech):
         return pickle.loads(pickle.dumps(sm))
     if mech == "deepcopy-of-deepcopy":
         return copy.deepcopy(copy.deepcopy(sm))
+    if mech == "deepcopy-via-model":
+        return copy.deepcopy(sm.model).owner
+    if mech == "pickle-via-model":
+        return pickle.loads(pickle.dumps(sm.model)).owner
     return pickle.loads(pickle.dumps(copy.deepcopy(sm)))
 
 
@@ -127,10 +134,20 @@ def run_case(ci, hist, cut, mech, suf_o, suf_c, order):
             return f"history {ev}: {msg}", steps
     # ---- copy ----
     sm = p.impl.sm
+    if mech.endswith("-via-model"):
+        sm.model.owner = sm
+    env = p.impl.env
+    env.top, env.stack, env.flat = [], [], []
+    CUR.env = env          # a callback run by the copy itself is recorded, not lost
     try:
         csm = clone_of(sm, mech)
     except Exception as e:   # noqa: BLE001
         return f"{mech} raised {type(e).__name__}: {e}", steps
+    finally:
+        CUR.env = None
+    if env.flat:
+        return (f"taking the copy ({mech}) ran callbacks: "
+                f"{[r.brief() for r in env.flat][:4]}"), steps
     steps += 1
     if csm is sm:
         return "the copy is the same object", steps
@@ -228,7 +245,7 @@ def worker(block):
 
 
 def _cat(msg):
-    for key in ("raised", "options", "differs at the copy point", "shares", "changed the other",
+    for key in ("ran callbacks", "raised", "options", "differs at the copy point", "shares", "changed the other",
                 "stored state", "trace", "exception", "outcome kind", "result", "hung",
                 "current_state", "allowed_events", "dirty"):
         if key in msg:
